@@ -57,6 +57,10 @@ ClassifyUdp(seg, ctx) ==
             IF RpcCleanCall(seg, 0) THEN Cls(id, "must", "C16", "rpc-call")
             ELSE Cls(id, "any", "C16", "rpc-unspecified")
       [] id = "RPC_TCP" -> Cls(id, "any", "C16", "rpc-record-marked-datagram")
+      [] id = "none" /\ Len(seg) >= 20 /\ StunType(seg) = 1 /\ StunLen(seg) = Len(seg) - 20 ->
+            (* a binding request in a shape the compiled signatures do not list (C15: "with or *)
+            (* without the magic cookie"): answered by STUN or not at all                      *)
+            Cls("STUN", "any", "C15", "stun-binding-request-outside-the-signatures")
       [] id = "none" ->
             LET w == QListC(seg) IN
             IF DnsIsResponse(seg) THEN Cls("DNS", "mustnot", "C12", "dns-response")
@@ -144,6 +148,7 @@ ClassifyTcp(before, seg, ctx) ==
             ELSE IF later /\ RpcCall(p, 4).ok /\ RpcCall(p, 4).mtype = << 0, 1 >> /\ lbp < RpcCall(p, 4).hdrend
                  THEN Cls(id, "mustnot", "C12", "rpc-reply-message-on-an-open-flow")
             ELSE IF ~later /\ RpcHdrIncomplete(p, 4) /\ RmLast(p) /\ RmLen(p)[1] = 0
+                    /\ RmLen(p)[2] >= 32 + RU32(p, 4 + 28)[2] + 8               \* the record is long enough for that header
                  THEN Cls(id, "mustnot", IF lb = 0 THEN "C16" ELSE "C11", "rpc-call-header-incomplete")
             ELSE IF RpcCleanCall(p, 4) THEN
                  LET c  == RpcCall(p, 4)
@@ -186,7 +191,7 @@ ResponderOf(transport, r) ==
     ELSE IF IsStunResponse(r) /\ StunLen(r) = Len(r) - 20 /\ StunMethod(r) = 1 THEN "STUN"
     ELSE IF transport = "udp" /\ IsRpcReply(r, 0) THEN "RPC"
     ELSE IF IsRpcReply(r, 4) /\ RmLen(r) = P32(Len(r) - 4) THEN "RPC"
-    ELSE IF Len(r) >= 12 /\ DnsQR(r) = 1 THEN "DNS"
+    ELSE IF transport = "udp" /\ Len(r) >= 12 /\ DnsQR(r) = 1 THEN "DNS"
     ELSE "unknown"
 
 Family(id) == IF id \in { "RPC_TCP", "RPC_UDP" } THEN "RPC" ELSE id
@@ -195,7 +200,7 @@ SigResponders == { "HTTP", "SSH", "GHOST", "SMB1", "SMB2", "STUN", "RPC" }
 (* protocols that mark this payload as one of their replies (C12) *)
 ReplyTypedBy(transport, s) ==
     (IF StunReplyTyped(s) THEN { "STUN" } ELSE {})
-    \cup (IF DnsIsResponse(s) THEN { "DNS" } ELSE {})
+    \cup (IF transport = "udp" /\ DnsIsResponse(s) THEN { "DNS" } ELSE {})
     \cup (IF Len(s) >= 8 /\ IsSmb1(s) /\ S1IsReply(s) THEN { "SMB1" } ELSE {})
     \cup (IF Len(s) >= 8 /\ IsSmb2(s) /\ S2IsReply(s) THEN { "SMB2" } ELSE {})
     \cup (IF RpcReplyTyped(s, IF transport = "tcp" THEN 4 ELSE 0) THEN { "RPC" } ELSE {})
@@ -258,6 +263,7 @@ AppJudge(transport, before, done, seg0, ctx, rpl, aux) ==
     (* responder answers it, the answer still has to be one of that protocol: the parts of the *)
     (* relation that do not depend on the unspecified request fields                           *)
     \cup (IF c.ans = "any" /\ answered /\ who = Family(c.proto)
+             /\ (c.proto \in { "SMB1", "SMB2", "STUN" } => before = << >> \/ SplitWhole(before, seg0) \/ RefId(seg0, FALSE) = c.proto)
           THEN CASE c.proto = "HTTP"  -> { << "C13", t >> : t \in Http401Fails(rpl) }
                  [] c.proto = "SSH"   -> IF rpl = SSH_REPLY THEN {} ELSE { << "C18", "ssh-exact-server-banner" >> }
                  [] c.proto = "GHOST" -> { << "C18", t >> : t \in GhostFails(rpl, aux.inflated) }
@@ -265,7 +271,9 @@ AppJudge(transport, before, done, seg0, ctx, rpl, aux) ==
                                          ELSE IF Len(rpl) >= 20 /\ StunClass(rpl) = 3      \* an error response to a malformed request
                                          THEN (IF SubSeq(rpl, 5, 20) = SubSeq(seg, 5, 20) THEN {} ELSE { << "C15", "stun-transaction-id" >> })
                                          ELSE { << "C15", t >> : t \in StunSuccessFails(seg, rpl, ctx.ver, ctx.src, ctx.sport) }
-                 [] c.proto = "RPC_UDP" -> { << "C16", t >> : t \in RpcReplyShellFails(seg, 0, rpl, 0) }
+                 [] c.proto = "RPC_UDP" -> IF transport = "udp" THEN { << "C16", t >> : t \in RpcReplyShellFails(seg, 0, rpl, 0) }
+                                           ELSE IF RpcReplyShellFails(seg, 0, rpl, 0) = {} \/ RpcReplyShellFails(seg, 0, rpl, 4) = {}
+                                           THEN {} ELSE { << "C16", "rpc-reply-to-unframed-call-over-tcp" >> }
                  [] c.proto = "RPC_TCP" -> IF transport = "tcp"
                                            THEN (* the XID is that of the first call only while that call is *)
                                                 (* still being received; which call a later answer belongs   *)
@@ -316,10 +324,13 @@ DATEHDR == << 100, 97, 116, 101, 58 >>                       \* "date:"
 RECURSIVE LineEnd(_, _)
 LineEnd(b, o) == IF o + 1 > Len(b) THEN o ELSE IF b[o + 1] = 10 THEN o ELSE LineEnd(b, o + 1)
 
-HttpCanon(r) ==
+EXPIRESHDR == << 101, 120, 112, 105, 114, 101, 115, 58 >>                                  \* "expires:"
+LASTMODHDR == << 108, 97, 115, 116, 45, 109, 111, 100, 105, 102, 105, 101, 100, 58 >>     \* "last-modified:"
+DropHeaderValue(r, lit) ==
     LET hb == BodyStart(r, 0)
-        d  == IF hb = 0 THEN 0 ELSE HeaderLineWith(r, 0, hb, DATEHDR)
+        d  == IF hb = 0 THEN 0 ELSE HeaderLineWith(r, 0, hb, lit)
     IN IF d = 0 THEN r ELSE SubSeq(r, 1, d) \o SubSeq(r, LineEnd(r, d) + 1, Len(r))
+HttpCanon(r) == DropHeaderValue(DropHeaderValue(DropHeaderValue(r, DATEHDR), EXPIRESHDR), LASTMODHDR)
 
 RECURSIVE DnsAnswersCanon(_, _, _)
 DnsAnswersCanon(r, o, k) ==      \* k answers from offset o: everything but the RDLENGTH / RDATA of IN/A records
